@@ -121,7 +121,7 @@ def check(run, ctx):
     for m in repo.modules_in("src.linters"):
         names = set()
         for n in ast.walk(m.tree):
-            if isinstance(n, ast.Assign) and isinstance(n.value, ast.Call) and isinstance(n.value.func, ast.Name) and n.value.func.id == "hash":
+            if isinstance(n, ast.Assign) and any(isinstance(x, ast.Call) and isinstance(x.func, ast.Name) and x.func.id == "hash" for x in ast.walk(n.value)):
                 names |= {t.id for t in n.targets if isinstance(t, ast.Name)}
         if not names:
             continue
@@ -139,6 +139,8 @@ def check(run, ctx):
                     bad = f"ordered comparison: {norm(n)}"
                 if isinstance(n, ast.Call) and call_name(n) in ("sorted", "sort", "min", "max") and any(isinstance(x, ast.Name) and x.id in names for x in ast.walk(n)):
                     bad = f"sorted on: {norm(n)}"
+                if isinstance(n, ast.BinOp) and isinstance(n.op, (ast.BitAnd, ast.Mod, ast.RShift, ast.FloorDiv, ast.BitXor)) and any((isinstance(x, ast.Call) and isinstance(x.func, ast.Name) and x.func.id == "hash") or (isinstance(x, ast.Name) and x.id in names) for x in (n.left, n.right)):
+                    bad = f"narrowed: {norm(n)} (blocks are grouped by this value alone, never by comparing their text: with fewer bits distinct windows collide, and which ones depends on PYTHONHASHSEED)"
             if bad:
                 run.finding(S3, fn.qual.replace("src.linters.", ""), "hash-observable", f"a seed-dependent hash() value is {bad}", fn.loc)
             else:
